@@ -55,7 +55,8 @@ Definition intersect_all (encs : list (list N)) : api (list N * list N) :=     (
       | None => AExc ValueError
       | Some (ll, lr) =>
           let to_rhs := map (fun h => wadd h hdr_unit) lr in
-          let to_lhs := map (fun h => wsub h hdr_unit) ll in
+          (* repair of D25: a word of (document 0, bucket 0) has no word to its left; subtracting would wrap around *)
+          let to_lhs := map (fun h => wsub h hdr_unit) (filter (fun h => hdr_unit <=? h) ll) in
           ado m1 <- lift (merge_drop to_rhs to_lhs);
           ado m2 <- lift (merge_drop ll m1);
           ado m3 <- lift (merge_drop lr m2);
@@ -89,12 +90,9 @@ Definition collect (spans : list span) (nt : N) (maxw : Z) : list span :=
                else coll) spans [].
 
 (* ---- the position loop: while term != 0 ---- *)
-(* _posn_mask:  return 1 << (curr_posn % 64)  — the generated C shifts the INT literal 1, which is undefined for
-   counts >= 32; as compiled by gcc on x86-64 it is a 32-bit shift (count mod 32) whose result is sign-extended
-   to 64 bits.  The model mirrors the compiled behaviour (validated by the correspondence check). *)
-Definition pmask (p : Z) : N :=
-  let k := Z.to_N (p mod 32) in
-  if k =? 31 then 18446744071562067968 else N.shiftl 1 k.
+(* _posn_mask:  return (<DTYPE_t>1) << (curr_posn % 64)   (64-bit shift; repair of D24: the int shift aliased
+   positions modulo 32 and sign-extended bit 31) *)
+Definition pmask (p : Z) : N := N.shiftl 1 (Z.to_N (p mod 64)).
 
 (* update the spans that existed before this position was added (indices < end); appended copies go to [app] *)
 Fixpoint update_spans (old : list span) (room : N) (tmask pm : N) (cp : Z) (nt : N) (maxw : Z) (full : bool)
@@ -182,12 +180,13 @@ Fixpoint words_loop (P : mem) (fuel : nat) (hi : N) (tord : N) (nt : N) (maxw : 
         do cg <- (if SPAN_CAP <=? N.of_nat (length spans1) then
                     let sp2 := compact spans1 maxw in
                     if SPAN_CAP <=? N.of_nat (length sp2) then
+                      (* give up: full = True (repair of D26: the table is incomplete for this document) *)
                       do g <- give_up P (S (N.to_nat (hi - idx1))) idx1 hi last_key ck;
-                      Done (sp2, match fst g with Some i => i | None => idx1 end, snd g)
-                    else Done (sp2, idx1, ck)
-                  else Done (spans1, idx1, ck));
-        let '(spans2, idx2, ck2) := cg in
-        let st' := {| ts_spans := spans2; ts_full := full1; ts_last_key := last_key; ts_curr_key := ck2; ts_idx := idx2;
+                      Done (sp2, match fst g with Some i => i | None => idx1 end, snd g, true)
+                    else Done (sp2, idx1, ck, full1)
+                  else Done (spans1, idx1, ck, full1));
+        let '(spans2, idx2, ck2, full2) := cg in
+        let st' := {| ts_spans := spans2; ts_full := full2; ts_last_key := last_key; ts_curr_key := ck2; ts_idx := idx2;
                       ts_sum := ts_sum st + popcount payload |} in
         if negb (ck2 =? last_key) then Done st' else words_loop P f hi tord nt maxw st'
       else Done st
